@@ -786,3 +786,460 @@ fn t_mpmc<M: RawMutex, A: RingBuf<Item = Tagged>>(cfg: &Cfg, ops: &[Op], run: &m
     }
 }
 
+
+// -------------------------------------------------------------------------------------- oneshot
+
+pub struct TaskOneshotWorld;
+pub struct TaskStateWorld;
+pub struct TaskTimerWorld;
+
+impl World for TaskOneshotWorld {
+    fn id(&self) -> u8 {
+        15
+    }
+    fn name(&self) -> &'static str {
+        "t-oneshot"
+    }
+    fn props(&self) -> &'static [&'static str] {
+        &["C12"]
+    }
+    fn configs(&self, _tier: Tier) -> Vec<Cfg> {
+        let mut v = Vec::new();
+        for flavour in [FL_LOCAL, FL_SYNC, FL_CHECKED] {
+            for mode in [0u8, 1] {
+                v.push(Cfg { flavour, mode, x: 0, y: 0, k: 4 });
+            }
+        }
+        v
+    }
+    fn enum_configs(&self, _tier: Tier) -> Vec<(Cfg, usize)> {
+        vec![]
+    }
+    fn specs(&self, cfg: &Cfg) -> Vec<OpSpec> {
+        specs_for(cfg.k, 3)
+    }
+    fn run(&self, cfg: &Cfg, ops: &[Op], run: &mut Run) {
+        use futures_intrusive::channel::{GenericOneshotBroadcastChannel, GenericOneshotChannel};
+        macro_rules! go {
+            ($m:ty) => {
+                if cfg.mode == 0 {
+                    let c: GenericOneshotChannel<$m, Tagged> = GenericOneshotChannel::new();
+                    t_oneshot(cfg, ops, run, &|v| c.send(v).map_err(|e| e.0), &|| Box::pin(c.receive()), &|| {
+                        c.close();
+                    })
+                } else {
+                    let c: GenericOneshotBroadcastChannel<$m, Tagged> = GenericOneshotBroadcastChannel::new();
+                    t_oneshot(cfg, ops, run, &|v| c.send(v).map_err(|e| e.0), &|| Box::pin(c.receive()), &|| {
+                        c.close();
+                    })
+                }
+            };
+        }
+        match cfg.flavour {
+            FL_LOCAL => go!(Noop),
+            FL_SYNC => go!(PlLock),
+            _ => go!(CheckedLock),
+        }
+    }
+    fn nontrivial(&self, prop: &str, c: u64) -> bool {
+        let b = |i: u32| c & (1 << i) != 0;
+        prop == "C12" && b(CL_CONTENDED) && b(CL_ALL_FINISHED) && b(CL_THREE_TASKS_ACTIVE)
+    }
+    fn cfg_desc(&self, cfg: &Cfg) -> String {
+        format!("task programs on a {} channel: 1 sender, {} competing receivers, lock={}", if cfg.mode == 1 { "oneshot broadcast" } else { "oneshot" }, cfg.k - 1, flavour_name(cfg.flavour))
+    }
+    fn class_names(&self) -> &'static [&'static str] {
+        CLASS_NAMES
+    }
+}
+
+type RecvFut<'a> = Pin<Box<dyn Future<Output = Option<Tagged>> + 'a>>;
+
+fn t_oneshot<'a>(cfg: &Cfg, ops: &[Op], run: &mut Run, send: &'a dyn Fn(Tagged) -> Result<(), Tagged>, receive: &'a dyn Fn() -> RecvFut<'a>, close: &'a dyn Fn()) {
+    tls::reset_history();
+    payload::reset();
+    let n = cfg.k as usize;
+    let bc = cfg.mode == 1;
+    let scripts = scripts_of(ops, n, 3, 4);
+    if scripts.iter().filter(|s| !s.is_empty()).count() >= 3 {
+        run.class(CL_THREE_TASKS_ACTIVE);
+    }
+    let sh = Shared::new(n);
+    let sent_ok: Cell<Option<u16>> = Cell::new(None);
+    let finished_state: Cell<u8> = Cell::new(0); // 0 open, 1 sent, 2 closed
+    let got_value = Cell::new(0u32);
+    let mut tasks: Vec<Option<Task<'_>>> = Vec::new();
+    for (me, script) in scripts.iter().enumerate() {
+        let (sh, sent_ok, finished_state, got_value) = (&sh, &sent_ok, &finished_state, &got_value);
+        let script = script.clone();
+        if me == 0 {
+            tasks.push(Some(Box::pin(async move {
+                for kind in script {
+                    // 0: yield, 1: send, 2: close
+                    match kind {
+                        0 => YieldNow(false).await,
+                        1 => {
+                            let Some(v) = Tagged::fresh() else { break };
+                            let id = v.id;
+                            match send(v) {
+                                Ok(()) => {
+                                    if finished_state.get() != 0 {
+                                        sh.violate("C12", "second-send-accepted", format!("send(v{}) succeeded although the channel was already used or closed", id));
+                                    }
+                                    sent_ok.set(Some(id));
+                                    finished_state.set(1);
+                                }
+                                Err(back) => {
+                                    if back.id != id {
+                                        sh.violate("C12", "wrong-value-returned", format!("send(v{}) returned v{}", id, back.id));
+                                    }
+                                    if finished_state.get() == 0 {
+                                        sh.violate("C12", "first-send-rejected", format!("send(v{}) on an open channel failed", id));
+                                    }
+                                }
+                            }
+                        }
+                        _ => {
+                            close();
+                            if finished_state.get() == 0 {
+                                finished_state.set(2);
+                            }
+                        }
+                    }
+                }
+            })));
+        } else {
+            tasks.push(Some(Box::pin(async move {
+                for kind in script {
+                    // 0: receive, 1: receive or give up, 2: yield
+                    let r = match kind {
+                        0 => {
+                            let mut f = receive();
+                            Some(
+                                std::future::poll_fn(|cx| {
+                                    let r = f.as_mut().poll(cx);
+                                    if r.is_pending() {
+                                        sh.class(CL_CONTENDED);
+                                    }
+                                    r
+                                })
+                                .await,
+                            )
+                        }
+                        1 => or_give_up(sh, me, receive()).await,
+                        _ => {
+                            YieldNow(false).await;
+                            None
+                        }
+                    };
+                    if let Some(res) = r {
+                        // the receive completed: the channel must have been fulfilled or closed
+                        match (finished_state.get(), res) {
+                            (0, r) => sh.violate("C12", "completed-on-open-channel", format!("a receive of task {} completed with {:?} although nothing was sent and the channel is open", me, r.map(|t| t.id))),
+                            (1, Some(v)) => {
+                                if Some(v.id) != sent_ok.get() {
+                                    sh.violate("C12", "wrong-value", format!("task {} received v{} but v{:?} was sent", me, v.id, sent_ok.get()));
+                                }
+                                got_value.set(got_value.get() + 1);
+                                if !bc && got_value.get() > 1 {
+                                    sh.violate("C12", "value-delivered-twice", format!("task {} is the second receiver that obtained the oneshot value", me));
+                                }
+                            }
+                            (1, None) => {
+                                if bc {
+                                    sh.violate("C12", "broadcast-missed", format!("task {} got None from a fulfilled broadcast channel", me));
+                                } else if got_value.get() == 0 {
+                                    sh.violate("C12", "value-lost", format!("task {} got None although the value was sent and nobody has received it", me));
+                                }
+                            }
+                            (_, Some(v)) => sh.violate("C12", "value-after-close", format!("task {} received v{} from a channel closed without a value", me, v.id)),
+                            (_, None) => {}
+                        }
+                    }
+                }
+            })));
+        }
+    }
+    execute(&mut tasks, ops, &sh, run, ("C12", Some("C11")), "oneshot channel", &mut || {
+        close();
+        if finished_state.get() == 0 {
+            finished_state.set(2);
+        }
+        true
+    });
+    finish(tasks, &sh, run);
+}
+
+// ---------------------------------------------------------------------------------------- state
+
+impl World for TaskStateWorld {
+    fn id(&self) -> u8 {
+        16
+    }
+    fn name(&self) -> &'static str {
+        "t-state"
+    }
+    fn props(&self) -> &'static [&'static str] {
+        &["C13"]
+    }
+    fn configs(&self, _tier: Tier) -> Vec<Cfg> {
+        [FL_LOCAL, FL_SYNC, FL_CHECKED].iter().map(|&flavour| Cfg { flavour, mode: 0, x: 0, y: 0, k: 4 }).collect()
+    }
+    fn enum_configs(&self, _tier: Tier) -> Vec<(Cfg, usize)> {
+        vec![]
+    }
+    fn specs(&self, cfg: &Cfg) -> Vec<OpSpec> {
+        specs_for(cfg.k, 3)
+    }
+    fn run(&self, cfg: &Cfg, ops: &[Op], run: &mut Run) {
+        match cfg.flavour {
+            FL_LOCAL => t_state::<Noop>(cfg, ops, run),
+            FL_SYNC => t_state::<PlLock>(cfg, ops, run),
+            _ => t_state::<CheckedLock>(cfg, ops, run),
+        }
+    }
+    fn nontrivial(&self, prop: &str, c: u64) -> bool {
+        let b = |i: u32| c & (1 << i) != 0;
+        prop == "C13" && b(CL_CONTENDED) && b(CL_ALL_FINISHED) && b(CL_DELIVERED_TWO)
+    }
+    fn cfg_desc(&self, cfg: &Cfg) -> String {
+        format!("task programs on a state broadcast channel: 1 publisher, {} followers, lock={}", cfg.k - 1, flavour_name(cfg.flavour))
+    }
+    fn class_names(&self) -> &'static [&'static str] {
+        CLASS_NAMES
+    }
+}
+
+fn t_state<M: RawMutex>(cfg: &Cfg, ops: &[Op], run: &mut Run) {
+    use futures_intrusive::channel::{GenericStateBroadcastChannel, StateId};
+    tls::reset_history();
+    payload::reset();
+    let n = cfg.k as usize;
+    let scripts = scripts_of(ops, n, 3, 5);
+    let chan: GenericStateBroadcastChannel<M, Tagged> = GenericStateBroadcastChannel::new();
+    let sh = Shared::new(n);
+    let published: RefCell<Vec<u16>> = RefCell::new(Vec::new());
+    let closed = Cell::new(false);
+    let mut tasks: Vec<Option<Task<'_>>> = Vec::new();
+    for (me, script) in scripts.iter().enumerate() {
+        let (chan, sh, published, closed) = (&chan, &sh, &published, &closed);
+        let script = script.clone();
+        if me == 0 {
+            tasks.push(Some(Box::pin(async move {
+                for kind in script {
+                    // 0: publish, 1: yield, 2: publish twice in a row
+                    let count = match kind {
+                        0 => 1,
+                        2 => 2,
+                        _ => {
+                            YieldNow(false).await;
+                            0
+                        }
+                    };
+                    for _ in 0..count {
+                        let Some(v) = Tagged::fresh() else { break };
+                        let id = v.id;
+                        match chan.send(v) {
+                            Ok(()) => published.borrow_mut().push(id),
+                            Err(_) => sh.violate("C11", "send-rejected-while-open", format!("the publisher's send(v{}) failed on an open channel", id)),
+                        }
+                    }
+                }
+                closed.set(true);
+                chan.close();
+            })));
+        } else {
+            tasks.push(Some(Box::pin(async move {
+                // a follower feeds back the id it got until the channel reports the end;
+                // script kind 1 at position i makes the i-th wait an "or give up" wait
+                let mut last_id = StateId::new();
+                let mut last_val: Option<u16> = None;
+                let mut seen = 0u32;
+                let mut i = 0usize;
+                loop {
+                    let give_up = script.get(i).copied() == Some(1);
+                    i += 1;
+                    let r = if give_up {
+                        match or_give_up(sh, me, chan.receive(last_id)).await {
+                            Some(r) => r,
+                            None => continue,
+                        }
+                    } else {
+                        let mut f = Box::pin(chan.receive(last_id));
+                        std::future::poll_fn(|cx| {
+                            let r = f.as_mut().poll(cx);
+                            if r.is_pending() {
+                                sh.class(CL_CONTENDED);
+                            }
+                            r
+                        })
+                        .await
+                    };
+                    match r {
+                        Some((id, v)) => {
+                            if !(id > last_id) {
+                                sh.violate("C13", "id-not-larger", format!("follower {} passed {:?} and got {:?}", me, last_id, id));
+                            }
+                            let pubs = published.borrow();
+                            let pos_new = pubs.iter().position(|p| *p == v.id);
+                            let pos_old = last_val.and_then(|l| pubs.iter().position(|p| *p == l));
+                            match pos_new {
+                                None => sh.violate("C13", "state-from-nowhere", format!("follower {} received v{} which was never published", me, v.id)),
+                                Some(pn) => {
+                                    if pos_old.is_some_and(|po| pn <= po) {
+                                        sh.violate("C13", "not-increasing", format!("follower {} saw v{} after v{:?}: not a strictly increasing subsequence of the published states", me, v.id, last_val));
+                                    }
+                                    if pn + 1 != pubs.len() {
+                                        sh.violate("C13", "stale-state", format!("follower {} received v{} but the most recently published state is v{}", me, v.id, pubs[pubs.len() - 1]));
+                                    }
+                                }
+                            }
+                            last_id = id;
+                            last_val = Some(v.id);
+                            seen += 1;
+                            if seen >= 2 {
+                                sh.class(CL_DELIVERED_TWO);
+                            }
+                        }
+                        None => {
+                            if !closed.get() {
+                                sh.violate("C11", "closed-reported-while-open", format!("follower {} got None although the channel is open", me));
+                            }
+                            // a receiver that has not yet seen the latest state still gets it
+                            let pubs = published.borrow();
+                            if pubs.last().copied() != last_val {
+                                sh.violate("C13", "latest-state-withheld", format!("follower {} got None after close but its last state is v{:?} and the latest published one is v{:?}", me, last_val, pubs.last()));
+                            }
+                            break;
+                        }
+                    }
+                }
+            })));
+        }
+    }
+    execute(&mut tasks, ops, &sh, run, ("C13", Some("C11")), "state broadcast channel", &mut || false);
+    finish(tasks, &sh, run);
+}
+
+// ---------------------------------------------------------------------------------------- timer
+
+struct TaskClock;
+impl futures_intrusive::timer::Clock for TaskClock {
+    fn now(&self) -> u64 {
+        tls::clock_get()
+    }
+}
+static TASK_CLOCK: TaskClock = TaskClock;
+
+impl World for TaskTimerWorld {
+    fn id(&self) -> u8 {
+        17
+    }
+    fn name(&self) -> &'static str {
+        "t-timer"
+    }
+    fn props(&self) -> &'static [&'static str] {
+        &["C15"]
+    }
+    fn configs(&self, _tier: Tier) -> Vec<Cfg> {
+        [FL_LOCAL, FL_SYNC, FL_CHECKED].iter().map(|&flavour| Cfg { flavour, mode: 0, x: 0, y: 0, k: 4 }).collect()
+    }
+    fn enum_configs(&self, _tier: Tier) -> Vec<(Cfg, usize)> {
+        vec![]
+    }
+    fn specs(&self, cfg: &Cfg) -> Vec<OpSpec> {
+        specs_for(cfg.k, 5)
+    }
+    fn run(&self, cfg: &Cfg, ops: &[Op], run: &mut Run) {
+        match cfg.flavour {
+            FL_LOCAL => t_timer::<Noop>(cfg, ops, run),
+            FL_SYNC => t_timer::<PlLock>(cfg, ops, run),
+            _ => t_timer::<CheckedLock>(cfg, ops, run),
+        }
+    }
+    fn nontrivial(&self, prop: &str, c: u64) -> bool {
+        let b = |i: u32| c & (1 << i) != 0;
+        prop == "C15" && b(CL_CONTENDED) && b(CL_ALL_FINISHED) && b(CL_THREE_TASKS_ACTIVE)
+    }
+    fn cfg_desc(&self, cfg: &Cfg) -> String {
+        format!("task programs on a timer service: {} tasks sleeping, the environment advances the clock to the next expiration, lock={}", cfg.k, flavour_name(cfg.flavour))
+    }
+    fn class_names(&self) -> &'static [&'static str] {
+        CLASS_NAMES
+    }
+}
+
+fn t_timer<M: RawMutex>(cfg: &Cfg, ops: &[Op], run: &mut Run) {
+    use futures_intrusive::timer::{GenericTimerService, LocalTimer};
+    use std::time::Duration;
+    tls::reset_history();
+    let n = cfg.k as usize;
+    let scripts = scripts_of(ops, n, 5, 5);
+    if scripts.iter().filter(|s| !s.is_empty()).count() >= 3 {
+        run.class(CL_THREE_TASKS_ACTIVE);
+    }
+    let svc: GenericTimerService<M> = GenericTimerService::new(&TASK_CLOCK);
+    let sh = Shared::new(n);
+    let mut tasks: Vec<Option<Task<'_>>> = Vec::new();
+    for (me, script) in scripts.iter().enumerate() {
+        let (svc, sh) = (&svc, &sh);
+        let script = script.clone();
+        tasks.push(Some(Box::pin(async move {
+            for kind in script {
+                // 0: delay 1, 1: delay 3, 2: deadline 5 (absolute), 3: delay 2 or give up, 4: yield
+                let deadline = match kind {
+                    0 => tls::clock_get() + 1,
+                    1 => tls::clock_get() + 3,
+                    2 => 5,
+                    3 => tls::clock_get() + 2,
+                    _ => {
+                        YieldNow(false).await;
+                        continue;
+                    }
+                };
+                let completed = match kind {
+                    0 | 1 => {
+                        let mut f = Box::pin(LocalTimer::delay(svc, Duration::from_millis(deadline - tls::clock_get())));
+                        std::future::poll_fn(|cx| {
+                            let r = f.as_mut().poll(cx);
+                            if r.is_pending() {
+                                sh.class(CL_CONTENDED);
+                            }
+                            r
+                        })
+                        .await;
+                        true
+                    }
+                    2 => {
+                        let mut f = Box::pin(LocalTimer::deadline(svc, 5));
+                        std::future::poll_fn(|cx| {
+                            let r = f.as_mut().poll(cx);
+                            if r.is_pending() {
+                                sh.class(CL_CONTENDED);
+                            }
+                            r
+                        })
+                        .await;
+                        true
+                    }
+                    _ => or_give_up(sh, me, LocalTimer::deadline(svc, deadline)).await.is_some(),
+                };
+                if completed && tls::clock_get() < deadline {
+                    sh.violate("C15", "early", format!("task {} woke from a sleep until {} at clock {}", me, deadline, tls::clock_get()));
+                }
+            }
+        })));
+    }
+    // the environment: advance the clock to the next expiration and check expirations
+    execute(&mut tasks, ops, &sh, run, ("C15", None), "timer service", &mut || match svc.next_expiration() {
+        Some(t) => {
+            if t > tls::clock_get() {
+                tls::clock_set(t);
+            }
+            svc.check_expirations();
+            true
+        }
+        None => false,
+    });
+    finish(tasks, &sh, run);
+}
